@@ -30,6 +30,7 @@ X6 tar and zip place every entry under `root` (pathjoin(root, <relative path>)).
 X7 _export_iter_entries asks tree.is_special_path about the entry's tree path (not the exported, sub-directory relative
 name). X8 no exporter leaves an iteration of its entry loop early (continue/break), and every normal way through the
 symlink arm of the directory and tar exporters creates the link.
+X9 (third round) the smart Repository.revision_archive handler only decodes `root` (no default substituted on the server side).
 Does not decide: that the bytes written equal the tree's contents (values).
 """
 
@@ -133,7 +134,16 @@ def run(ctx):
     tg = [c for c in calls_in(fns["tar"]) if norm(c.func) == "prepare_tarball_item"]
     ctx.check("X6-under-root", f"{TAR}:tarball_generator", len(tg) == 1 and [norm(a) for a in tg[0].args[:2]] == ["tree", "root"], "tarball_generator hands its root to prepare_tarball_item")
     ctx.sample({"exporters": {k: f"{rel}:{q}" for k, (rel, q) in exporters.items()}})
-
+    # ---- the smart archive handler hands the caller's root on as it came (empty means: no root directory) --------------
+    SRP = "breezy/bzr/smart/repository.py"
+    fah = repo.func(SRP, "SmartServerRepositoryRevisionArchive.do_repository_request")
+    wah = f"{SRP}:SmartServerRepositoryRevisionArchive.do_repository_request"
+    rparam = "root"
+    ctx.require(rparam in [a.arg for a in fah.args.args], f"{wah}: parameter `root` not found")
+    rassign = [a for a in walk_own(fah) if isinstance(a, ast.Assign) and any(norm(t) == rparam for t in a.targets)]
+    foreign = [f"L{a.lineno}:{norm(a)[:60]}" for a in rassign if not (isinstance(a.value, ast.Call) and call_attr(a.value) == "decode" and norm(a.value.func.value) == rparam)]
+    defaults = [norm(c.func) for c in calls_in(fah) if "get_root_name" in norm(c.func)]
+    ctx.check("X9-remote-root-verbatim", wah, not foreign and not defaults, "`root` is only decoded before it is passed to the archive generator (the caller already resolved a missing root; an empty one means no root directory)", construct="; ".join(foreign + defaults), message=f"the Repository.revision_archive handler replaces the caller's root ({'; '.join(foreign + defaults)}): an export of a remote revision tree with root='' gets every member under a directory the caller did not ask for, the same export of the local tree does not")
 
 MUTANTS = [
     Mutant("special-path test on the exported name", EX, "        if skip_special and tree.is_special_path(path):\n            continue\n", "        if skip_special and tree.is_special_path(path if not subdir else path[len(subdir) + 1 :]):\n            continue\n", expect="X7-special-path-on-tree-path"),
